@@ -214,9 +214,27 @@ Section PowerOpen.
       as (m' & os & w' & E & _ & IV & _).
     now exists m', os, w'.
   Qed.
+  (* the empty directory is a state of the sync-aware invariant, for either choice of
+     pre_create_cas_dirs *)
+  Lemma rests_empty : c_n cfg < 2 ^ 64 -> RestS empty_fs [].
+  Proof.
+    intros Nfit. split; [exact (rest_empty H cfg Nfit)|].
+    assert (E : forall p, syn empty_fs p) by (intros p f G; discriminate).
+    split; [apply E|]. split; [apply E|]. split; intros; apply E.
+  Qed.
+
+  (* power loss during the FIRST open of an empty directory, after any number of its calls
+     (also in the middle of the mkdir loop of the fan-out tree when pre_create_cas_dirs = true),
+     any victim set: the next open succeeds with a handle for the empty map *)
+  Theorem first_open_powerloss : c_n cfg < 2 ^ 64 -> forall n v,
+    exists m' os w',
+      open_with_recover H cfg (init_world (loss_open n v empty_fs) None) = (Ok (m', os), w') /\
+      Inv' m' (wfs w') [].
+  Proof. intros Nfit n v. exact (loss_open_then_open n v empty_fs [] (rests_empty Nfit)). Qed.
 End PowerOpen.
 
 Print Assumptions open_powerloss_b.
 Print Assumptions open_powerloss.
 Print Assumptions loss_at_rest.
 Print Assumptions loss_open_then_open.
+Print Assumptions first_open_powerloss.
